@@ -241,6 +241,42 @@ def fn_sweep_n3(items):
     return {'n': n, 'nt': nt, 'viol': viol, 'keys': keys, 'extra': extra}
 
 
+
+# ---------------------------------------------------------------- circuits (take + compile + forward/backward) on states
+def fn_circuits(items):
+    """item = [N, program]: the program (letters of pcverif.circ's alphabet) is assembled with take() into a
+    CliffordCircuit and a Circuit, run uncompiled and compiled, forward and backward, on signed states of every
+    rank; the resulting state must be valid.  (Equality with the gate product is C09/C10; here only the invariant.)"""
+    from .. import circ
+    pk = circ.PyPk
+    n = nt = 0
+    viol = []
+    for N, prog in items:
+        A = circ.alphabet('py', N)
+        letters = [A[k] for k in prog]
+        ins = [i for i in circ.inputs(N) if i.kind == 'state']
+        for cls in ('CliffordCircuit', 'Circuit'):
+            for compiled in (False, True):
+                for d in ('forward', 'backward'):
+                    for inp in ins:
+                        try:
+                            c, _ = circ.build(pk, cls, N, letters)
+                            if compiled:
+                                c.compile()
+                            st = pk.fresh(inp)
+                            getattr(c, d)(st)
+                        except Exception:
+                            continue     # one-directional gates etc.: execution semantics are decided by C09/C10
+                        n += 1
+                        nt += 1
+                        bad = stab.state_check(st, N)
+                        if bad:
+                            viol.append(V('C05/circuit/%s/%s/%s/invalid' % (cls, 'compiled' if compiled else 'uncompiled', d), [N, prog],
+                                          'N=%d program %s as %s%s: %s on %s gives an invalid state (%s)' % (
+                                              N, [l.name for l in letters], cls, ' compiled' if compiled else '', d, inp.name, bad)))
+    return {'n': n, 'nt': nt, 'viol': viol}
+
+
 # ---------------------------------------------------------------- constructors
 def _ctor_list(N):
     pc = lib.pc
@@ -398,6 +434,16 @@ def legs(tier):
     get_menu(3, 'quick')
     out.append(Leg('sweep_N3', fn_sweep_n3, [[nb3, i] for i in range(nb3)], chunk=6, exhaustive=False, supplementary=True,
                    bound='%d N=3 tableaux (BFS from six start states of every rank 0..3, by concrete tableau) x %d menu operations (all rotations, masked 1- and 2-qubit rotations and maps incl. the non-contiguous mask, named gates both directions, all single measurements, commuting pairs, state arguments, measurement layers incl. [0,2],[2,0], post-selection; all coin branches)' % (nb3, len(get_menu(3, 'quick')))))
+    from .. import circ
+    from .c09 import SUB7
+    cp = circ.programs('py', 2, 3) + [[3, list(p)] for p in itertools.product(SUB7, repeat=3)]
+    cp += [[3, list(p)] for p in sorted({tuple(p) for sub in ((11, 1, 8, 10), (11, 0, 15, 10), (2, 6, 1, 4)) for p in itertools.product(sub, repeat=3 if tier == 'quick' else 4)})]
+    if tier != 'quick':
+        cp += circ.programs('py', 3, 3)
+    out.append(Leg('circuits', fn_circuits, cp, chunk=8,
+                   bound='take/compile/forward/backward: all programs of length <=3 over 12 letters (N=2), all 3-gate programs over the 7-letter N=3 sub-alphabet, '
+                         'all %s-gate programs over three 4-letter N=3 sub-alphabets%s; CliffordCircuit and Circuit, uncompiled and compiled, both directions, signed states of every rank' % (
+                             3 if tier == 'quick' else 4, '' if tier == 'quick' else '; all programs of length <=3 over all 17 N=3 letters')))
     citems = [[N, 'det', 0] for N in (1, 2, 3, 4)] + [[N, 'bit', 0] for N in (1, 2, 3)]
     citems += [[N, k, r] for N in (1, 2) for k in ('pauli', 'clifford') for r in range(N + 1)]
     out.append(Leg('constructors', fn_ctor, citems, chunk=1,
